@@ -198,7 +198,7 @@ Definition swap_adj (i : nat) (ab : absorb) (calc : nat * nat) (st : mps) : opti
   Some (mkM l (match ab with
                | ALeft => RSome i i
                | ARight => RSome (S i) (S i)
-               | _ => rec st1   (* record not touched *)
+               | _ => RSome i (S i)   (* both sides absorb: neither site is isometric *)
                end)))).
 
 Fixpoint fold_swaps (js : list nat) (ab : absorb) (calc : nat * nat) (st : mps) : option mps :=
@@ -251,22 +251,33 @@ Definition gate_submpo (w1 w2 : nat) (rev : bool) (calc : nat * nat) (st : mps) 
   bind (region_compress si sf rev (sites st1)) (fun l =>
   Some (mkM l (if rev then RSome sf sf else RSome si si)))).
 
+(* widen a pair record so that it covers site i (other records are left alone):
+   new record = (min of the old pair and i, max of the old pair and i) *)
+Definition widen (r : rcd) (i : nat) : rcd :=
+  match r with
+  | RSome a b => RSome (Nat.min (Nat.min a b) i) (Nat.max (Nat.max a b) i)
+  | r => r
+  end.
+
 (* compress_site(i, canonize=...) *)
 Definition compress_site (i : nat) (canonize : bool) (calc : nat * nat) (st : mps) : option mps :=
   let st := decorated st in
   bind (if canonize then canonicalize i i calc st else Some st) (fun st1 =>
   bind (if 0 <? i then compress_bond (pred i) ARight (sites st1) else Some (sites st1)) (fun l1 =>
   bind (if S i <? length l1 then compress_bond i ALeft l1 else Some l1) (fun l2 =>
-  Some (mkM l2 (rec st1))))).
+  Some (mkM l2 (if canonize then rec st1 else widen (rec st1) i))))).
 
 (* singular_values / schmidt_values / entropy / schmidt_gap / bipartite_schmidt_state *)
 Definition singular_values (i : nat) (calc : nat * nat) (st : mps) : option mps :=
   let st := decorated st in
   if (0 <? i) && (i <? length (sites st)) then canonicalize i i calc st else None.
 
-(* gate(G, i, contract=True, info=info): generic one-site path, record untouched *)
+(* gate(G, i, contract=True | 'auto-mps' | 'swap+split' | 'nonlocal', info=info):
+   gate_TN_1D widens a pair record to cover the site unless G is unitary, then
+   the generic one-site path contracts G into the tensor *)
 Definition gate_one_site (i : nat) (unitary : bool) (st : mps) : option mps :=
-  bind (gate1 i unitary (sites st)) (fun l => Some (mkM l (rec st))).
+  bind (gate1 i unitary (sites st)) (fun l =>
+  Some (mkM l (if unitary then rec st else widen (rec st) i))).
 
 (* measure(site, remove=...), continuing with the returned state *)
 Definition measure (s : nat) (remove : bool) (calc : nat * nat) (st : mps) : option mps :=
@@ -274,13 +285,16 @@ Definition measure (s : nat) (remove : bool) (calc : nat * nat) (st : mps) : opt
   bind (canonicalize s s calc st) (fun st1 =>
   bind (project s (sites st1)) (fun l1 =>
   bind (if remove then remove_site s l1 else Some l1) (fun l2 =>
-  Some (mkM l2 (rec st1))))).
+  (* removing the last site: the record moves onto the new last site *)
+  Some (mkM l2 (if remove && (S s =? length l1)
+                then RSome (length l1 - 2) (length l1 - 2) else rec st1))))).
 
-(* the record is updated for a copy that is then dropped:
+(* a copy of the state is canonicalized with a COPY of the record and dropped:
    measure(site, get='outcome', inplace=False), sample_configuration(info=info),
-   sample(C, info=info) *)
+   sample(C, info=info); the caller's state and record are untouched (the call
+   still raises where canonicalize does) *)
 Definition canonicalize_dropped_copy (w1 w2 : nat) (calc : nat * nat) (st : mps) : option mps :=
-  bind (canonicalize w1 w2 calc st) (fun st1 => Some (mkM (sites st) (rec st1))).
+  bind (canonicalize w1 w2 calc st) (fun _ => Some st).
 
 (* compute_local_expectation_canonical(terms, inplace=True): stable sort of the
    terms by |min(where) - cur_orthog[0]| (a tuple record) or by min(where), then
